@@ -76,10 +76,10 @@ CHECKS = {
     'C16': dict(text='allowed_iff / parking_iff / generator_sound proved for EVERY list of device edges over tables regenerated from the '
                      'code on each run (48×48 pair table by decide +kernel); exhaustive ≤ 3-edge (thorough ≤ 4) correspondence and '
                      'generator soundness on the implementation. get_mutually_allowed, the frequency ordering (is_equal_to / is_higher_than / is_lower_than), '
-                     'on_moving_side and the two frequency selectors are proved equal to their SOURCE TEXT (calls between them run the translated callee).', ref='DESIGN.md §4 C16, §2.3b'),
+                     'on_moving_side, the two frequency selectors and get_requires_parking (every qubit, every edge list) are proved equal to their SOURCE TEXT (calls between them run the translated callee).', ref='DESIGN.md §4 C16, §2.3b'),
     'C17': dict(text='Shipped layouts executable by decide over regenerated tables; derived and composite descriptions executable and '
                      'index map bijective for every involved-qubit list (theorems); all chains, random subsets/orderings and exclusions '
-                     'compared with the implementation.', ref='DESIGN.md §4 C17'),
+                     'compared with the implementation. get_requires_parking (the dynamic parking of derived descriptions) is proved equal to its SOURCE TEXT.', ref='DESIGN.md §4 C17'),
     'C18': dict(text='Drawing geometry (rows, pivots, widths, figure width, labels, rejection) proved of the model; plot ≡ one listing on '
                      'the heap (frame theorem, partial for settledness); real plot_circuit descriptions/transforms compared with the '
                      'model; side-effect clause by before/after and twin runs under foreign ambient durations. reorder_indices (row order) is proved equal to its SOURCE TEXT.', ref='DESIGN.md §4 C18'),
